@@ -1186,7 +1186,18 @@ def ci_detect(repo: Repo, rep):
                         empty_cmp = isinstance(x.ops[0], (ast.NotEq, ast.IsNot)) and isinstance(rhs, ast.Constant) and rhs.value in ("", None, False)
                         if not empty_cmp:
                             narrowed = x
-        if narrowed is not None:
+        # the scan goes on until a variable with a non-empty value is found: no `return` inside the loop that can answer falsy
+        # (`return var if os.environ[var] else False` for the first variable that is merely *defined* ends the scan - CI='' hides GITHUB_ACTIONS=true)
+        early = None
+        if isinstance(it, ast.For):
+            for r_ in [y for s_ in it.body for y in ast.walk(s_) if isinstance(y, ast.Return)]:
+                rv = r_.value
+                falsy_possible = rv is None or (isinstance(rv, ast.Constant) and not rv.value) or (isinstance(rv, ast.IfExp) and any(isinstance(z, ast.Constant) and not z.value for z in (rv.body, rv.orelse))) or (isinstance(rv, ast.BoolOp))
+                if falsy_possible:
+                    early = r_
+        if early is not None:
+            rep.violation("R-CI-DETECT", f, early, f"is_ci_run() can leave its scan of the CI variables with a falsy answer (`{short(early, 60)}`) at a variable that is defined but empty: the variables behind it are never looked at - with CI='' and GITHUB_ACTIONS=true the CI run is not detected and approved changes are written on the CI machine", construct="scan-left-falsy")
+        elif narrowed is not None:
             rep.violation("R-CI-DETECT", f, narrowed, f"is_ci_run() accepts a CI variable only for certain values (`{short(narrowed, 60)}`): BUILD_NUMBER, BUILD_ID, JENKINS_URL, TEAMCITY_VERSION ... are never 'true' - runs on Jenkins / TeamCity / Bamboo are not recognised as CI, snapshot(v) stays a wrapper there and files can be rewritten", construct="value-narrowed")
         elif value_test:
             rep.ok("R-CI-DETECT", f, it, "each variable's value is tested")
